@@ -170,6 +170,150 @@ theorem flipOK_of (lat : Lattice) (faces : Loc → Option (List Loc)) (loc : Loc
     simp at this
     simp [this]
 
+
+/-! ### Z entries survive dict building -/
+
+/-- inserting further Z entries keeps a Z entry in the dict -/
+theorem foldl_dict_keeps_Z (qs : List Loc) (rest acc : List (Loc × Pauli))
+    (hall : ∀ c ∈ rest, c.2 = Pauli.Z) (hacc : ∃ e ∈ acc, e.2 = Pauli.Z)
+    (haccZ : ∀ e ∈ acc, e.2 = Pauli.Z) :
+    ∃ e ∈ rest.foldl (fun op c => if qs.contains c.1 then dictSet op c.1 c.2 else op) acc,
+      e.2 = Pauli.Z := by
+  induction rest generalizing acc with
+  | nil => simpa using hacc
+  | cons c rest ih =>
+    simp only [List.foldl_cons]
+    have hc : c.2 = Pauli.Z := hall c List.mem_cons_self
+    apply ih _ (fun d hd => hall d (List.mem_cons_of_mem _ hd))
+    · split
+      · unfold dictSet
+        split
+        · obtain ⟨e, he, hz⟩ := hacc
+          refine ⟨if e.1 == c.1 then (c.1, c.2) else e, List.mem_map.mpr ⟨e, he, rfl⟩, ?_⟩
+          split <;> simp [hc, hz]
+        · obtain ⟨e, he, hz⟩ := hacc
+          exact ⟨e, List.mem_append_left _ he, hz⟩
+      · exact hacc
+    · split
+      · unfold dictSet
+        split
+        · intro e he
+          obtain ⟨d, hd, rfl⟩ := List.mem_map.mp he
+          split
+          · exact hc
+          · exact haccZ d hd
+        · intro e he
+          rcases List.mem_append.mp he with h | h
+          · exact haccZ e h
+          · simp at h; rw [h]; exact hc
+      · exact haccZ
+
+/-- a dict built from Z candidates whose first location is a qubit has a Z entry -/
+theorem buildOp_head_Z (qs : List Loc) (c0 : Loc × Pauli) (rest : List (Loc × Pauli))
+    (hq : qs.contains c0.1 = true) (hall : ∀ c ∈ c0 :: rest, c.2 = Pauli.Z) :
+    ∃ e ∈ buildOp qs (c0 :: rest), e.2 = Pauli.Z := by
+  unfold buildOp
+  simp only [List.foldl_cons, hq, if_true]
+  have h0 : c0.2 = Pauli.Z := hall c0 List.mem_cons_self
+  exact foldl_dict_keeps_Z qs rest (dictSet [] c0.1 c0.2) (fun c hc => hall c (List.mem_cons_of_mem _ hc))
+    ⟨(c0.1, c0.2), by simp [dictSet], h0⟩ (by simp [dictSet, h0])
+
+/-! ### versions with the `is_qubit` / `is_stabilizer` filters kept (open boundaries) -/
+
+theorem buildOp_foldl_filter (qs : List Loc) (cands acc : List (Loc × Pauli))
+    (hnd : ((acc ++ cands).map Prod.fst).Nodup) :
+    cands.foldl (fun op c => if qs.contains c.1 then dictSet op c.1 c.2 else op) acc =
+      acc ++ cands.filter (fun c => qs.contains c.1) := by
+  induction cands generalizing acc with
+  | nil => simp
+  | cons c cands ih =>
+    simp only [List.foldl_cons]
+    by_cases hc : qs.contains c.1 = true
+    · simp only [hc, if_true, List.filter_cons]
+      have hnot : acc.any (fun e => e.1 == c.1) = false := by
+        rw [List.any_eq_false]
+        intro e he
+        simp only [beq_iff_eq]
+        intro h
+        rw [List.map_append, List.nodup_append] at hnd
+        exact hnd.2.2 e.1 (List.mem_map_of_mem he) c.1 (List.mem_map_of_mem List.mem_cons_self) h
+      have hds : dictSet acc c.1 c.2 = acc ++ [c] := by
+        unfold dictSet
+        simp [hnot]
+      rw [hds, ih (acc ++ [c]) (by simpa using hnd)]
+      simp
+    · have hc' : qs.contains c.1 = false := by simpa using hc
+      simp only [hc', Bool.false_eq_true, if_false, List.filter_cons]
+      apply ih
+      rw [List.map_append, List.nodup_append] at hnd ⊢
+      refine ⟨hnd.1, ?_, ?_⟩
+      · have := hnd.2.1
+        rw [List.map_cons, List.nodup_cons] at this
+        exact this.2
+      · intro a ha b hb
+        exact hnd.2.2 a ha b (by rw [List.map_cons]; exact List.mem_cons_of_mem _ hb)
+
+/-- with pairwise distinct candidate locations the dict is the list of the candidates that
+    are qubits -/
+theorem buildOp_eq_filter (qs : List Loc) (cands : List (Loc × Pauli))
+    (hnd : (cands.map Prod.fst).Nodup) :
+    buildOp qs cands = cands.filter (fun c => qs.contains c.1) := by
+  unfold buildOp
+  rw [buildOp_foldl_filter qs cands [] (by simpa using hnd)]
+  simp
+
+theorem mem_keys_filter (qs : List Loc) (cands : List (Loc × Pauli)) (loc : Loc) :
+    loc ∈ (cands.filter (fun c => qs.contains c.1)).map Prod.fst ↔
+      loc ∈ cands.map Prod.fst ∧ loc ∈ qs := by
+  simp only [List.mem_map, List.mem_filter, List.contains_iff_mem]
+  constructor
+  · rintro ⟨e, ⟨he, hq⟩, rfl⟩
+    exact ⟨⟨e, he, rfl⟩, hq⟩
+  · rintro ⟨⟨e, he, rfl⟩, hq⟩
+    exact ⟨e, ⟨he, hq⟩, rfl⟩
+
+theorem nodup_keys_filter (p : Loc × Pauli → Bool) (cands : List (Loc × Pauli))
+    (hnd : (cands.map Prod.fst).Nodup) : ((cands.filter p).map Prod.fst).Nodup :=
+  List.Nodup.sublist (List.Sublist.map _ List.filter_sublist) hnd
+
+/-- a filtered list is duplicate-free as soon as equal entries of the list fail the filter -/
+theorem nodup_filter_of_pairwise (p : Loc → Bool) (l : List Loc)
+    (h : l.Pairwise (fun a b => a = b → p a = false)) : (l.filter p).Nodup := by
+  induction l with
+  | nil => simp
+  | cons a l ih =>
+    rw [List.pairwise_cons] at h
+    rw [List.filter_cons]
+    split
+    · rename_i hp
+      rw [List.nodup_cons]
+      refine ⟨?_, ih h.2⟩
+      intro hmem
+      have := h.1 a (List.mem_filter.mp hmem).1 rfl
+      rw [hp] at this
+      cases this
+    · exact ih h.2
+
+/-- a stabilizer whose dict is the qubit-filtered part of a duplicate-free list of X candidates -/
+theorem faceHas_of_X_filter (lat : Lattice) (s loc : Loc) (cands : Op)
+    (hop : lat.stabOp s = cands.filter (fun c => lat.qubits.contains c.1))
+    (hnd : (cands.map Prod.fst).Nodup) (hx : ∀ e ∈ cands, e.2 = Pauli.X) (hq : loc ∈ lat.qubits) :
+    faceHas lat s loc = decide (loc ∈ cands.map Prod.fst) := by
+  rw [faceHas_of_X lat s loc _ hop (nodup_keys_filter _ cands hnd)
+    (fun e he => hx e (List.mem_filter.mp he).1)]
+  have := mem_keys_filter lat.qubits cands loc
+  simp only [this, hq, and_true]
+
+/-- reduction of `flipOK` when the face list keeps its `is_stabilizer` filter -/
+theorem flipOK_of_filter (lat : Lattice) (faces : Loc → Option (List Loc)) (loc : Loc)
+    (raw : List Loc) (hf : faces loc = some (raw.filter lat.isStab))
+    (hpw : raw.Pairwise (fun a b => a = b → lat.isStab a = false))
+    (h : ∀ s ∈ lat.stabs, (s ∈ raw ↔ faceHas lat s loc = true)) : flipOK lat faces loc = true := by
+  apply flipOK_of lat faces loc _ hf (nodup_filter_of_pairwise _ raw hpw)
+  intro s hs
+  rw [List.mem_filter, ← h s hs]
+  simp [Lattice.isStab, hs]
+
 /-! ### wrap-around arithmetic -/
 
 theorem emod_in (a P : Int) (h0 : 0 ≤ a) (h1 : a < P) : a % P = a := Int.emod_eq_of_lt h0 h1
